@@ -107,6 +107,12 @@ def _sets(ctx, rng, tier):
         if not d:
             continue
         cells = [c for c, k in d.items() if k in (0, 3, 5)]
+        if i % 5 == 0:      # three and four nested outer loops around the innermost hole
+            cells = [c for c, k in d.items() if k in (1, 3, 5)]
+        elif i % 5 == 1 and len(d) > 127:
+            cells = [c for c, k in d.items() if k in (0, 2, 4, 6)]
+        elif i % 5 == 2 and len(d) > 127:
+            cells = [c for c, k in d.items() if k in (1, 3, 5, 7)]
         if i % 2:
             far = [c for c, k in d.items() if k == 8]
             if far:
